@@ -149,10 +149,10 @@ func (l *Lexer) bracesToken(tok token.TokenType, literal string) token.Token {
 }
 
 func (l *Lexer) illegalToken() token.Token {
-	c := l.char
+	c := l.input[l.pos : l.pos+1]
 	l.tokenBegins()
 	l.readChar() // skip the illegal character
-	return l.newToken(token.ILLEGAL, string(c))
+	return l.newToken(token.ILLEGAL, c)
 }
 
 func (l *Lexer) directiveToken() token.Token {
